@@ -306,6 +306,7 @@ fn memory_pressure(rep: &Report) {
 pub fn run(rep: &'static Report) {
     let seed = rep.seed;
     rep.set_rule("E-GRID vs OpenSSL EVP_PBE_scrypt: full product N x r x p x dkLen, each axis swept completely with the others small, corner tuples, password/salt length grid incl. 0/63/64/65 and trailing-NUL variants; every tuple through the library and through the exported C function (dlopen of the cdylib built from the working tree) with guard bytes around all buffers. distinct non-trivial = distinct (via, password, salt, N, r, p, dkLen) tuples");
+    rep.rule_add("ordered call pairs on one thread; aliasing; child processes under a grid of address-space limits (library and C ABI).");
     rep.assume("password/salt byte values from seed-derived alphabets; N <= 2^15; OpenSSL is the RFC 7914 reference");
     let (lib, ffi_t) = tuples(seed, rep.tier);
     lib.par_iter().for_each(|t| {
